@@ -8,15 +8,15 @@ From Lospan Require Import Base.Bytes Base.Outcome Model.CMAC Model.FrameTypes M
 Open Scope N_scope.
 
 Record config := { cfg_netid : N; cfg_disable_nonce_check : bool }.
-Record srv := { s_db : db; s_fb : fbuf; s_cfg : config }.
+Record srv := { s_tab : dtab; s_apps : list N; s_cfg : config }.
 
 (* what leaves the pipeline *)
 Record downlink := { dl_raw : list N; dl_radio : radio; dl_gw : gwctx; dl_rx1delay : N; dl_eui : N }.
 Record publish := { pb_app : N; pb_eui : N; pb_payload : list N; pb_gw : N; pb_radio : radio }.
 Inductive out := ODown (d : downlink) | OPub (p : publish).
 
-Definition with_db (s : srv) (d : db) : srv := {| s_db := d; s_fb := s_fb s; s_cfg := s_cfg s |}.
-Definition with_fb (s : srv) (b : fbuf) : srv := {| s_db := s_db s; s_fb := b; s_cfg := s_cfg s |}.
+Definition with_tab (s : srv) (t : dtab) : srv := {| s_tab := t; s_apps := s_apps s; s_cfg := s_cfg s |}.
+Definition has_app (apps : list N) (eui : N) : bool := existsb (fun a => a =? eui) apps.
 
 Definition set_counters (dev : device) (fup fdn : N) (kw : bool) : device :=
   {| d_eui := d_eui dev; d_addr := d_addr dev; d_appkey := d_appkey dev; d_appskey := d_appskey dev; d_nwkskey := d_nwkskey dev;
@@ -36,141 +36,155 @@ Section Server.
       let m := data_mic E nwk (mtype_uplink (mtype f1)) (devaddr_u32 (f_devaddr f1)) (fcnt f1) msg in
       encode (set_mic f1 m).
 
-  (* Encoder.processMessage for a data downlink: ctx device is the handler's snapshot *)
-  Definition encoder_data (s : srv) (dev : device) (p : phyout) (rx : rxpacket) (created now : N) : srv * list out :=
+  (* the frame GetPHYPayloadForDevice builds and the encoder completes with FCnt = FCntDn *)
+  Definition downlink_frame (dev : device) (p : phyout) : frame :=
     let base := new_phy (po_mtype p) in
-    let f := {| mtype := po_mtype p; major := c_MaxSupportedVersion; f_devaddr := devaddr_of_u32 (d_addr dev);
-                fc := {| adr := false; adrackreq := false; ack := po_ack p; fpending := po_pending p; classb := false; foptslen := 0 |};
-                fcnt := d_fdn dev; fopts := fopts base; fport := po_port p; frm := po_frm p; maccmds := maccmds base;
-                mic := 0; jr := jr base; ja := ja base |} in
-    match encode_message (d_nwkskey dev) (d_appskey dev) f with
+    {| mtype := po_mtype p; major := c_MaxSupportedVersion; f_devaddr := devaddr_of_u32 (d_addr dev);
+       fc := {| adr := false; adrackreq := false; ack := po_ack p; fpending := po_pending p; classb := false; foptslen := 0 |};
+       fcnt := d_fdn dev; fopts := fopts base; fport := po_port p; frm := po_frm p; maccmds := maccmds base;
+       mic := 0; jr := jr base; ja := ja base |}.
+
+  (* Encoder.processMessage for a data downlink: dev is the handler's snapshot of the device *)
+  Definition encoder_data (st : dstate) (dev : device) (p : phyout) (rx : rxpacket) (created now : N) : dstate * list out :=
+    match encode_message (d_nwkskey dev) (d_appskey dev) (downlink_frame dev p) with
     | Ok buf =>
-      let db1 := set_sent_time (s_db s) (d_eui dev) created now (d_fup dev) in
+      let st1 := l_set_sent_time st created now (d_fup dev) in
       let dev' := set_counters dev (d_fup dev) ((d_fdn dev + 1) mod 65536) (d_keywarn dev) in
-      match update_device_state db1 dev' with
-      | (db2, None) =>
-        (with_db s db2,
-         if (length buf =? 0)%nat then []
-         else [ODown {| dl_raw := buf; dl_radio := rx_radio rx; dl_gw := rx_gw rx; dl_rx1delay := 1; dl_eui := d_eui dev |}])
-      | (db2, Some _) => (with_db s db2, [])
+      match l_update_device_state st1 dev' with
+      | (st2, None) =>
+        (st2, if (length buf =? 0)%nat then []
+              else [ODown {| dl_raw := buf; dl_radio := rx_radio rx; dl_gw := rx_gw rx; dl_rx1delay := 1; dl_eui := d_eui dev |}])
+      | (st2, Some _) => (st2, [])
       end
-    | _ => (s, [])
+    | _ => (st, [])
     end.
 
   (* Encoder.processMessage for a join-accept *)
-  Definition encoder_join (s : srv) (dev : device) (j : joinacc) (rx : rxpacket) : srv * list out :=
+  Definition encoder_join (st : dstate) (dev : device) (j : joinacc) (rx : rxpacket) : dstate * list out :=
     let dev' := set_counters dev 0 0 (d_keywarn dev) in
-    match update_device_state (s_db s) dev' with
-    | (db1, None) =>
+    match l_update_device_state st dev' with
+    | (st1, None) =>
       match encode_join_accept E D (d_appkey dev) JoinAccept c_MaxSupportedVersion j with
-      | Ok buf => (with_db s db1, [ODown {| dl_raw := buf; dl_radio := rx_radio rx; dl_gw := rx_gw rx; dl_rx1delay := 5; dl_eui := d_eui dev |}])
-      | _ => (with_db s db1, [])
+      | Ok buf => (st1, [ODown {| dl_raw := buf; dl_radio := rx_radio rx; dl_gw := rx_gw rx; dl_rx1delay := 5; dl_eui := d_eui dev |}])
+      | _ => (st1, [])
       end
-    | (db1, Some _) => (with_db s db1, [])
+    | (st1, Some _) => (st1, [])
     end.
 
   (* scheduler.sendAt + encoder for the device whose handler just notified *)
-  Definition send_for (s : srv) (dev : device) (rx : rxpacket) (created now : N) : srv * list out :=
-    match fb_get_phy (s_fb s) (d_eui dev) (r_datr (rx_radio rx)) with
-    | (b, GetOk p) =>
-      let s1 := with_fb s b in
+  Definition send_for (st : dstate) (dev : device) (rx : rxpacket) (created now : N) : dstate * list out :=
+    match l_get_phy st (r_datr (rx_radio rx)) with
+    | (st1, GetOk p) =>
       if po_mtype p =? JoinAccept then
-        match po_ja p with Some j => encoder_join s1 dev j rx | None => encoder_join s1 dev zero_ja rx end
-      else if mtype_uplink (po_mtype p) || (po_mtype p =? RFU) || (po_mtype p =? Proprietary) then (s1, [])
-      else encoder_data s1 dev p rx created now
-    | (b, _) => (with_fb s b, [])
+        match po_ja p with Some j => encoder_join st1 dev j rx | None => encoder_join st1 dev zero_ja rx end
+      else if mtype_uplink (po_mtype p) || (po_mtype p =? RFU) || (po_mtype p =? Proprietary) then (st1, [])
+      else encoder_data st1 dev p rx created now
+    | (st1, _) => (st1, [])
     end.
 
-  (* Decrypter.processMessage for one device whose key verified the MIC *)
-  Definition process_message (s : srv) (dev : device) (f : frame) (rx : rxpacket) (nmatch : nat) (now : N) : srv * list out :=
-    if negb (d_relaxed dev) && (fcnt f <? d_fup dev) then (s, [])
+  (* Decrypter.processMessage, in the order of the code: counter check and advance ... *)
+  Definition stale (dev : device) (f : frame) : bool := negb (d_relaxed dev) && (fcnt f <? d_fup dev).
+  Definition pm_counter (st : dstate) (dev : device) (f : frame) (nmatch : nat) : option (dstate * device) :=
+    let kw := if (1 <? nmatch)%nat then true else d_keywarn dev in
+    if d_fup dev <=? fcnt f then
+      let dev1 := set_counters dev ((fcnt f + 1) mod 65536) (d_fdn dev) kw in
+      match l_update_device_state st dev1 with
+      | (st1, None) => Some (st1, dev1)
+      | (_, Some _) => None
+      end
+    else Some (st, set_counters dev (d_fup dev) (d_fdn dev) kw).
+  (* ... the inbox row and the published message ... *)
+  Definition mk_umsg (dev : device) (rx : rxpacket) (plain : list N) : umsg :=
+    {| u_eui := d_eui dev; u_ts := rx_ts rx; u_data := plain; u_gweui := g_eui (rx_gw rx); u_radio := rx_radio rx; u_addr := d_addr dev |}.
+  Definition mk_pub (dev : device) (rx : rxpacket) (plain : list N) : publish :=
+    {| pb_app := d_appeui dev; pb_eui := d_eui dev; pb_payload := plain; pb_gw := g_eui (rx_gw rx); pb_radio := rx_radio rx |}.
+  (* ... ACK bookkeeping and loading the oldest unsent message (returns its created_time, 0 if none) ... *)
+  Definition pm_queue (st : dstate) (f : frame) (now : N) : dstate * N :=
+    let st3 := if mtype f =? ConfirmedDataUp then l_set_ack_flag st true else st in
+    let st4 := if ack (fc f) then l_update_ack_time st3 (fcnt f) now else l_reset_active_acks st3 in
+    match l_get_next_unsent st4 with
+    | Some m => (l_set_sent_time (l_set_payload st4 (m_data m) (m_port m) (m_ack m)) (m_created m) now (fcnt f), m_created m)
+    | None => (st4, 0)
+    end.
+  (* ... then the answer is scheduled and encoded, and the payload published *)
+  Definition process_message (apps : list N) (st : dstate) (dev : device) (f : frame) (rx : rxpacket) (nmatch : nat) (now : N)
+    : dstate * list out :=
+    if stale dev f then (st, [])
     else
-      let kw := if (1 <? nmatch)%nat then true else d_keywarn dev in
-      let step1 :=
-        if d_fup dev <=? fcnt f then
-          let dev1 := set_counters dev ((fcnt f + 1) mod 65536) (d_fdn dev) kw in
-          match update_device_state (s_db s) dev1 with
-          | (db1, None) => Some (db1, dev1)
-          | (_, Some _) => None
-          end
-        else Some (s_db s, set_counters dev (d_fup dev) (d_fdn dev) kw) in
-      match step1 with
-      | None => (s, [])
-      | Some (db1, dev1) =>
+      match pm_counter st dev f nmatch with
+      | None => (st, [])
+      | Some (st1, dev1) =>
         let plain := frm (frame_crypt E (d_nwkskey dev1) (d_appskey dev1) f) in
-        let um := {| u_eui := d_eui dev1; u_ts := rx_ts rx; u_data := plain; u_gweui := g_eui (rx_gw rx);
-                     u_radio := rx_radio rx; u_addr := d_addr dev1 |} in
-        match create_upstream db1 um with
-        | (db2, Some _) => (with_db s db2, [])
-        | (db2, None) =>
-          if negb (has_app db2 (d_appeui dev1)) then (with_db s db2, [])
+        match l_create_upstream st1 (mk_umsg dev1 rx plain) with
+        | (st2, Some _) => (st2, [])
+        | (st2, None) =>
+          if negb (has_app apps (d_appeui dev1)) then (st2, [])
           else
-            let fb1 := if mtype f =? ConfirmedDataUp then fb_set_ack_flag (s_fb s) (d_eui dev1) true else s_fb s in
-            let db3 := if ack (fc f) then update_ack_time db2 (d_eui dev1) (fcnt f) now else reset_active_acks db2 (d_eui dev1) in
-            let '(db4, fb2, created) :=
-              match get_next_unsent db3 (d_eui dev1) with
-              | Some m => (set_sent_time db3 (d_eui dev1) (m_created m) now (fcnt f),
-                           fb_set_payload fb1 (d_eui dev1) (m_data m) (m_port m) (m_ack m), m_created m)
-              | None => (db3, fb1, 0)
-              end in
-            let s1 := {| s_db := db4; s_fb := fb2; s_cfg := s_cfg s |} in
-            let '(s2, outs) := send_for s1 dev1 rx created now in
-            (s2, outs ++ [OPub {| pb_app := d_appeui dev1; pb_eui := d_eui dev1; pb_payload := plain;
-                                   pb_gw := g_eui (rx_gw rx); pb_radio := rx_radio rx |}])
+            let q := pm_queue st2 f now in
+            let r := send_for (fst q) dev1 rx (snd q) now in
+            (fst r, snd r ++ [OPub (mk_pub dev1 rx plain)])
         end
       end.
 
+  (* the devices whose non-empty network session key verifies the MIC over the received bytes *)
+  Definition mic_ok (f : frame) (raw : list N) (dv : device) : bool :=
+    negb (key_empty (d_nwkskey dv)) &&
+    (data_mic E (d_nwkskey dv) (mtype_uplink (mtype f)) (devaddr_u32 (f_devaddr f)) (fcnt f) (firstn (length raw - 4) raw) =? mic f).
+
   (* Decrypter.verifyAndDecryptMessage *)
   Definition uplink_data (s : srv) (f : frame) (rx : rxpacket) (now : N) : srv * list out :=
-    let cands := get_by_devaddr (s_db s) (devaddr_u32 (f_devaddr f)) in
+    let cands := dt_by_devaddr (s_tab s) (devaddr_u32 (f_devaddr f)) in
     let raw := rx_raw rx in
     if (length raw <? N.to_nat c_MinimumMessageSize)%nat then (s, [])
     else
-      let msg := firstn (length raw - 4) raw in
-      let ok d := negb (key_empty (d_nwkskey d)) &&
-                  (data_mic E (d_nwkskey d) (mtype_uplink (mtype f)) (devaddr_u32 (f_devaddr f)) (fcnt f) msg =? mic f) in
-      let matching := filter ok cands in
-      fold_left (fun acc d => let '(s1, o1) := process_message (fst acc) d f rx (length matching) now in (s1, snd acc ++ o1))
+      let matching := filter (mic_ok f raw) cands in
+      fold_left (fun acc dv =>
+                   let '(st', o1) := process_message (s_apps s) (dt_get (s_tab (fst acc)) (d_eui dv)) dv f rx (length matching) now in
+                   (with_tab (fst acc) (dt_put (s_tab (fst acc)) (d_eui dv) st'), snd acc ++ o1))
                 matching (s, []).
 
-  (* verifyJoinRequestMIC + processJoinRequest; appnonce and a fresh address are inputs *)
-  Definition join_request (s : srv) (f : frame) (rx : rxpacket) (appnonce : list N) (newaddr : N) : srv * list out :=
+  (* verifyJoinRequestMIC + processJoinRequest on the named device's state; appnonce and a fresh address are inputs *)
+  Definition join_local (cfg : config) (apps : list N) (st : dstate) (f : frame) (rx : rxpacket) (appnonce : list N) (newaddr : N)
+    : dstate * list out :=
     let raw := rx_raw rx in
-    if negb (length raw =? 23)%nat then (s, [])
-    else
-      let j := jr f in
-      match get_by_eui (s_db s) (jr_deveui j) with
-      | None => (s, [])
-      | Some dev0 =>
-        if negb (buffer_mic E (d_appkey dev0) (firstn 19 raw) =? mic f) then (s, [])
-        else
-          match get_by_eui (s_db s) (jr_deveui j) with
-          | None => (s, [])
-          | Some dev =>
-            if negb (d_appeui dev =? jr_appeui j) then (s, [])
-            else if negb (cfg_disable_nonce_check (s_cfg s)) && existsb (fun n => n =? jr_devnonce j) (d_nonces dev) then (s, [])
-            else if negb (has_app (s_db s) (jr_appeui j)) then (s, [])
-            else
-              let r1 := if cfg_disable_nonce_check (s_cfg s) then (s_db s, None) else add_nonce (s_db s) (d_eui dev) (jr_devnonce j) in
-              match r1 with
-              | (_, Some _) => (s, [])
-              | (db1, None) =>
-                let nwk := nwkskey_from_nonces E (d_appkey dev) appnonce (cfg_netid (s_cfg s)) (jr_devnonce j) in
-                let app := appskey_from_nonces E (d_appkey dev) appnonce (cfg_netid (s_cfg s)) (jr_devnonce j) in
-                let addr := if d_addr dev =? 0 then newaddr else d_addr dev in
-                let dev1 := {| d_eui := d_eui dev; d_addr := addr; d_appkey := d_appkey dev; d_appskey := app; d_nwkskey := nwk;
-                               d_appeui := d_appeui dev; d_state := d_state dev; d_fup := 0; d_fdn := 0; d_relaxed := d_relaxed dev;
-                               d_keywarn := d_keywarn dev; d_nonces := d_nonces dev |} in
-                match update_device db1 dev1 with
-                | (db2, Some _) => (with_db s db2, [])
-                | (db2, None) =>
-                  let ja_ := {| ja_appnonce := appnonce; ja_netid := N.land (cfg_netid (s_cfg s)) 4294967295;
-                                ja_devaddr := devaddr_of_u32 addr; ja_rx1droffset := 0; ja_rx2dr := 5; ja_rxdelay := 1 |} in
-                  let s1 := {| s_db := db2; s_fb := fb_set_join_accept (s_fb s) (d_eui dev) ja_; s_cfg := s_cfg s |} in
-                  send_for s1 dev1 rx 0 0
-                end
-              end
+    let j := jr f in
+    match ds_row st with
+    | None => (st, [])
+    | Some r =>
+      let dev := load st r in
+      if negb (buffer_mic E (d_appkey dev) (firstn 19 raw) =? mic f) then (st, [])
+      else if negb (d_appeui dev =? jr_appeui j) then (st, [])
+      else if negb (cfg_disable_nonce_check cfg) && existsb (fun n => n =? jr_devnonce j) (d_nonces dev) then (st, [])
+      else if negb (has_app apps (jr_appeui j)) then (st, [])
+      else
+        let r1 := if cfg_disable_nonce_check cfg then (st, None) else l_add_nonce st (jr_devnonce j) in
+        match r1 with
+        | (_, Some _) => (st, [])
+        | (st1, None) =>
+          let nwk := nwkskey_from_nonces E (d_appkey dev) appnonce (cfg_netid cfg) (jr_devnonce j) in
+          let app := appskey_from_nonces E (d_appkey dev) appnonce (cfg_netid cfg) (jr_devnonce j) in
+          let addr := if d_addr dev =? 0 then newaddr else d_addr dev in
+          let dev1 := {| d_eui := d_eui dev; d_addr := addr; d_appkey := d_appkey dev; d_appskey := app; d_nwkskey := nwk;
+                         d_appeui := d_appeui dev; d_state := d_state dev; d_fup := 0; d_fdn := 0; d_relaxed := d_relaxed dev;
+                         d_keywarn := d_keywarn dev; d_nonces := d_nonces dev |} in
+          match l_update_device st1 dev1 with
+          | (st2, Some _) => (st2, [])
+          | (st2, None) =>
+            let ja_ := {| ja_appnonce := appnonce; ja_netid := N.land (cfg_netid cfg) 4294967295;
+                          ja_devaddr := devaddr_of_u32 addr; ja_rx1droffset := 0; ja_rx2dr := 5; ja_rxdelay := 1 |} in
+            send_for (l_set_join_accept st2 ja_) dev1 rx 0 0
           end
+        end
+    end.
+
+  Definition join_request (s : srv) (f : frame) (rx : rxpacket) (appnonce : list N) (newaddr : N) : srv * list out :=
+    if negb (length (rx_raw rx) =? 23)%nat then (s, [])
+    else
+      let eui := jr_deveui (jr f) in
+      let '(st', outs) := join_local (s_cfg s) (s_apps s) (dt_get (s_tab s) eui) f rx appnonce newaddr in
+      match ds_row (dt_get (s_tab s) eui) with
+      | None => (s, [])
+      | Some _ => (with_tab s (dt_put (s_tab s) eui st'), outs)
       end.
 
   (* one packet from a gateway: Decoder, then the Decrypter's dispatch *)
@@ -185,8 +199,8 @@ Section Server.
 
   (* an application queues a message (storage.CreateDownstreamMessage) *)
   Definition submit (s : srv) (m : dmsg) : srv * bool :=
-    match create_downstream (s_db s) m with
-    | (d, None) => (with_db s d, true)
-    | (d, Some _) => (with_db s d, false)
+    match l_create_downstream (dt_get (s_tab s) (m_eui m)) m with
+    | (st, None) => (with_tab s (dt_put (s_tab s) (m_eui m) st), true)
+    | (_, Some _) => (s, false)
     end.
 End Server.
